@@ -933,3 +933,166 @@ theorem C01.pump_drain_fifo_nonvacuous :
 theorem C01.join_nonvacuous :
     join [.val 1, .err 4, .none, .err 0] = .err [4, 0] ∧ join [.none, .val 1, .none, .val 2] = .vals [1, 2] ∧
     join [.none, .val 1] = .val 1 ∧ join [.none, .none] = .none := by decide
+
+/-! ## The window inside `Write` (a reader closes between `accepting()` and its `Reader.write`) -/
+
+namespace Uniflow.WriterProofs
+
+theorem closeR_keeps (m : W) (r : RId) :
+    (Writer.step m (.closeR r)).1.rows = m.rows ∧ (Writer.step m (.closeR r)).1.writes = m.writes ∧
+    (Writer.step m (.closeR r)).1.written = m.written ∧ (Writer.step m (.closeR r)).2.emits = [] := by
+  simp only [Writer.step, stepWith]
+  split <;> exact ⟨rfl, rfl, rfl, rfl⟩
+
+theorem closeAll_keeps (m : W) (cs : List RId) :
+    (Writer.closeAll m cs).1.rows = m.rows ∧ (Writer.closeAll m cs).1.writes = m.writes ∧
+    (Writer.closeAll m cs).1.written = m.written := by
+  induction cs generalizing m with
+  | nil => exact ⟨rfl, rfl, rfl⟩
+  | cons r rs ih =>
+    obtain ⟨h1, h2, h3, _⟩ := closeR_keeps m r
+    obtain ⟨i1, i2, i3⟩ := ih (Writer.step m (.closeR r)).1
+    simp only [Writer.closeAll]
+    exact ⟨i1.trans h1, i2.trans h2, i3.trans h3⟩
+
+theorem write_zero_keeps (m : W) (v : Nat) (h : (Writer.step m (.write v)).2.ret = .cnt 0) :
+    (Writer.step m (.write v)).1.rows = m.rows ∧ (Writer.step m (.write v)).1.writes = m.writes ∧
+    (Writer.step m (.write v)).1.written = m.written ∧ (Writer.step m (.write v)).2.emits = [] ∧
+    (Writer.step m (.write v)).2.deliv = [] := by
+  revert h
+  simp only [Writer.step, stepWith]
+  split
+  · intro _; exact ⟨rfl, rfl, rfl, rfl, rfl⟩
+  · split
+    · intro _; exact ⟨rfl, rfl, rfl, rfl, rfl⟩
+    · split
+      · intro h; cases h
+      · split
+        · rename_i hacc
+          intro h
+          simp only [Ret.cnt.injEq] at h
+          omega
+        · intro _; exact ⟨rfl, rfl, rfl, rfl, rfl⟩
+
+theorem spec_closeAll_ids (s : S) (cs : List RId) (hI : IdsOK s) :
+    IdsOK (WriterSpec.closeAll s cs).1 ∧ (WriterSpec.closeAll s cs).1.emittedIds = s.emittedIds ∧
+    (WriterSpec.closeAll s cs).1.nextW = s.nextW := by
+  induction cs generalizing s with
+  | nil => exact ⟨hI, rfl, rfl⟩
+  | cons r rs ih =>
+    have hk : (WriterSpec.step s (.closeR r)).1.emittedIds = s.emittedIds ∧
+        (WriterSpec.step s (.closeR r)).1.rows = s.rows ∧ (WriterSpec.step s (.closeR r)).1.nextW = s.nextW := by
+      simp only [WriterSpec.step]
+      split <;> exact ⟨rfl, rfl, rfl⟩
+    have hI' : IdsOK (WriterSpec.step s (.closeR r)).1 := by
+      simp only [IdsOK, hk.1, hk.2.1, hk.2.2]; exact hI
+    obtain ⟨i1, i2, i3⟩ := ih _ hI'
+    simp only [WriterSpec.closeAll]
+    exact ⟨i1, i2.trans hk.1, i3.trans hk.2.2⟩
+
+/-- Responses emitted by an extended step. -/
+def xemitted (outs : List XOut) : List Resp := emitted (outs.map (·.out))
+
+theorem spec_xstep_ids (s : S) (st : XStep) (hI : IdsOK s) :
+    IdsOK (WriterSpec.xstep s st).1 ∧
+    (WriterSpec.xstep s st).1.emittedIds.length = s.emittedIds.length + (WriterSpec.xstep s st).2.out.emits.length := by
+  cases st with
+  | base b =>
+    obtain ⟨h1, h2, _⟩ := spec_step_ids s b hI
+    exact ⟨h1, h2⟩
+  | writeH v cs =>
+    simp only [WriterSpec.xstep]
+    split
+    · obtain ⟨c1, c2, _⟩ := spec_closeAll_ids s cs hI
+      obtain ⟨h1, h2, _⟩ := spec_step_ids (WriterSpec.closeAll s cs).1 (.write v) c1
+      refine ⟨h1, ?_⟩
+      rw [h2, c2]
+    · exact ⟨hI, by simp⟩
+
+theorem spec_xrun_ids (s : S) (h : List XStep) (hI : IdsOK s) :
+    IdsOK (WriterSpec.xrunFrom s h).1 ∧
+    (WriterSpec.xrunFrom s h).1.emittedIds.length = s.emittedIds.length + (xemitted (WriterSpec.xrunFrom s h).2).length := by
+  induction h generalizing s with
+  | nil => exact ⟨hI, by simp [WriterSpec.xrunFrom, xemitted, emitted]⟩
+  | cons st h ih =>
+    obtain ⟨s1, s2⟩ := spec_xstep_ids s st hI
+    obtain ⟨i1, i2⟩ := ih _ s1
+    refine ⟨i1, ?_⟩
+    simp only [WriterSpec.xrunFrom, xemitted, emitted, List.map_cons, List.flatMap_cons, List.length_append] at i2 ⊢
+    omega
+
+end Uniflow.WriterProofs
+
+/-- Refinement with the window inside `Write` open: on every history of base steps and of writes
+inside which readers close (an outbound hook that closes the only open reader, one of several, a
+reader of no link, or none), the model shows step by step what the specification shows – return
+value, responses, deliveries, the number of calls of the outbound hook and the drop goroutines
+the hook's closes spawned. -/
+theorem C01.refines_hooks (h : List XStep) : (Writer.xrun h).2 = (WriterSpec.xrun h).2 :=
+  (sim_xrun rel_init h).1
+
+/-- **A write that reports 0 leaves nothing behind**, whatever closes inside it: the writer's
+pending rows, their write numbers and the counter of accepted writes are what they were, nothing
+is emitted and nothing is handed to a reader.  (Seeded change c01j appended the all-refused row
+and advanced `written`.) -/
+theorem C01.write_zero_changes_nothing (m : W) (v : Nat) (cs : List RId)
+    (h : (Writer.xstep m (.writeH v cs)).2.out.ret = .cnt 0) :
+    (Writer.xstep m (.writeH v cs)).1.rows = m.rows ∧ (Writer.xstep m (.writeH v cs)).1.writes = m.writes ∧
+    (Writer.xstep m (.writeH v cs)).1.written = m.written ∧
+    (Writer.xstep m (.writeH v cs)).2.out.emits = [] ∧ (Writer.xstep m (.writeH v cs)).2.out.deliv = [] := by
+  revert h
+  simp only [Writer.xstep]
+  split
+  · intro h
+    obtain ⟨c1, c2, c3⟩ := closeAll_keeps m cs
+    obtain ⟨w1, w2, w3, w4, w5⟩ := write_zero_keeps (Writer.closeAll m cs).1 v h
+    exact ⟨w1.trans c1, w2.trans c2, w3.trans c3, w4, w5⟩
+  · intro _; exact ⟨rfl, rfl, rfl, rfl, rfl⟩
+
+/-- The same for a plain `write`, and: a write that is not a request at all (writer closed, no
+reader linked, no reader accepting) does not show the packet to the outbound hook. -/
+theorem C01.write_zero_base (m : W) (v : Nat) (h : (Writer.step m (.write v)).2.ret = .cnt 0) :
+    (Writer.step m (.write v)).1.rows = m.rows ∧ (Writer.step m (.write v)).1.writes = m.writes ∧
+    (Writer.step m (.write v)).1.written = m.written ∧
+    (isRequest m = false → (Writer.xstep m (.writeH v [])).2.shown = 0 ∧ (Writer.xstep m (.writeH v [])).1 = m) := by
+  obtain ⟨w1, w2, w3, _, _⟩ := write_zero_keeps m v h
+  refine ⟨w1, w2, w3, ?_⟩
+  intro hq
+  simp [Writer.xstep, hq]
+
+/-- Responses after such a write pair with the right writes: on every extended history the write
+ids of the responses emitted so far followed by the ids of the pending rows are `0, 1, …, n-1`
+(`n` = number of accepted writes, a write reporting 0 gets no id), one id per response, and the
+model emits exactly these responses. -/
+theorem C01.hooks_in_order (h : List XStep) :
+    xemitted (Writer.xrun h).2 = xemitted (WriterSpec.xrun h).2 ∧
+    (WriterSpec.xrun h).1.emittedIds ++ (WriterSpec.xrun h).1.rows.map (·.wid) = List.range (WriterSpec.xrun h).1.nextW ∧
+    (WriterSpec.xrun h).1.emittedIds = List.range (xemitted (Writer.xrun h).2).length := by
+  rw [C01.refines_hooks h]
+  unfold WriterSpec.xrun
+  obtain ⟨h1, h2⟩ := spec_xrun_ids S.init h (by simp [IdsOK, S.init])
+  rw [show S.init.emittedIds.length = 0 from rfl, Nat.zero_add] at h2
+  refine ⟨rfl, h1, ?_⟩
+  have hle : (WriterSpec.xrunFrom S.init h).1.emittedIds.length ≤ (WriterSpec.xrunFrom S.init h).1.nextW := by
+    have := congrArg List.length h1
+    simp only [List.length_append, List.length_range] at this
+    omega
+  have := congrArg (List.take (WriterSpec.xrunFrom S.init h).1.emittedIds.length) h1
+  rw [List.take_left, List.take_range, Nat.min_eq_left hle] at this
+  rw [← h2]; exact this
+
+/-- Non-vacuity: the only open reader closes inside the write (the write reports 0, the hook was
+shown the packet once, nothing is left behind), then a second reader is linked and its two
+requests are answered – responses `v5`, `v6` for write ids 0 and 1; and a hook that closes one of
+two open readers (the write is accepted by the other one alone). -/
+theorem C01.write_zero_nonvacuous :
+    (Writer.xrun [.base (.link 0), .writeH 1 [0], .base (.link 1), .base (.write 2), .base (.answer 1 (.val 5)),
+        .base (.write 3), .base (.answer 1 (.val 6))]).2.map (fun o => (o.out.ret, o.shown, o.out.emits)) =
+      [(.ok true, 0, []), (.cnt 0, 1, []), (.ok true, 0, []), (.cnt 1, 1, []), (.ok true, 0, [.val 5]),
+       (.cnt 1, 1, []), (.ok true, 0, [.val 6])] ∧
+    (Writer.xrun [.base (.link 0), .writeH 1 [0]]).1.rows = [] ∧
+    (Writer.xrun [.base (.link 0), .writeH 1 [0]]).1.written = 0 ∧
+    (Writer.xrun [.base (.link 0), .base (.link 1), .writeH 1 [1], .base (.answer 0 (.val 7))]).2.map
+        (fun o => (o.out.ret, o.out.emits)) =
+      [(.ok true, []), (.ok true, []), (.cnt 1, []), (.ok true, [.val 7])] := by
+  decide
